@@ -11,3 +11,7 @@ for _p in ('C07', 'C09', 'C15'):
 
 import props_paths
 REGISTRY['C18'] = props_paths.run
+
+import props_cache
+for _p in ('C06', 'C08', 'C12', 'C13'):
+    REGISTRY[_p] = props_cache.run
